@@ -510,8 +510,9 @@ class Unit:
         self.assumptions = []
 
 
-def build_unit(template_path, repo, canary=False, helpers=None):
+def build_unit(template_path, repo, canary=False, helpers=None, nodecr=None):
     helpers = helpers or {}
+    nodecr = nodecr or set()
     lines = open(template_path).read().split("\n")
     u = Unit()
     out = []
@@ -678,6 +679,11 @@ def build_unit(template_path, repo, canary=False, helpers=None):
                 i += 1
             name, raw = locate(repo, relfile, path)
             txt, rules = rewrite(raw, "fn", nopub)
+            ordn = len([x for x in u.items if x["kind"] == "fn" and not x.get("canary") and not x.get("auto")])
+            if ordn in nodecr:
+                # the code has a loop the unit gives no invariant/measure for (e.g. added by a change):
+                # let Verus go on without a termination proof for it; its effects are havoc
+                txt = "#[verifier::exec_allows_no_decreases_clause]\n" + txt
             plain = splice_fn(txt, spec)
             ctxt = None
             if canary:
